@@ -21,6 +21,11 @@ from vlib import common  # noqa: E402
 
 INTEREST = ("transform", "doTransform", "parseSource", "compileStylesheet", "process")
 
+
+def interesting(name):
+    # the transform family, plus the C functions among themselves (one XalanTransformTo* may forward to another)
+    return name in INTEREST or (name or "").startswith("XalanTransformTo")
+
 ABBR = [
     ("XalanParsedSource", "PS"), ("XSLTInputSource", "IS"), ("XSLTResultTarget", "RT"),
     ("XalanCompiledStylesheet", "CS"), ("XalanOutputHandlerType", "OH"), ("XalanFlushHandlerType", "FH"),
@@ -119,13 +124,13 @@ class TU:
         def rec(n):
             if isinstance(n, dict):
                 k = n.get("kind")
-                if k == "MemberExpr" and n.get("name") in INTEREST and n.get("referencedMemberDecl"):
+                if k == "MemberExpr" and interesting(n.get("name")) and n.get("referencedMemberDecl"):
                     lab = self.label(n["referencedMemberDecl"], n.get("name"))
                     if lab:
                         out.append(lab)
                 elif k == "DeclRefExpr":
                     r = n.get("referencedDecl", {})
-                    if r.get("kind") in ("FunctionDecl", "CXXMethodDecl") and r.get("name") in INTEREST:
+                    if r.get("kind") in ("FunctionDecl", "CXXMethodDecl") and interesting(r.get("name")):
                         lab = self.label(r.get("id"), r.get("name"), r.get("type", {}).get("qualType"))
                         if lab:
                             out.append(lab)
